@@ -50,6 +50,8 @@ def gen(rng, broker, tier):
         if rng.random() < 0.1:
             j["retries"] = 1
             j["beh"] = [{"do": "raise", "dur_us": d}, {"do": "return", "dur_us": d}]
+        if rng.random() < 0.12:
+            j["ttl_s"] = rng.choice([1, 1, 2])  # may expire while waiting for a slot: must not cost a slot
         if prof == "one-hangs" and i == 0:
             j["timeout_s"] = 1
             j["beh"] = [{"do": "hang"}]
@@ -111,8 +113,12 @@ async def _main(sim, sc, out):
     bound = t0 + 3 * total // limit + 30_000_000 + max((x.get("at_us", 0) for x in sc["jobs"]), default=0)
     out["_on_abort"] = lambda a: V.append(violation("stall", f"C09/{b}/kernel-{a.kind}", detail=a.detail)) if a.kind == "deadlock" else None
 
+    def expired_dead():
+        insp = world.inspect()
+        return {jid for jid, ps in insp.items() if jobs.get(jid, {}).get("ttl_s") and any(p["place"] == "dead" for p in ps)}
+
     def all_done():
-        done_ids = {e[2] for e in state.ends if e[4] in ("return", "hang")}
+        done_ids = {e[2] for e in state.ends if e[4] in ("return", "hang")} | expired_dead()
         return all(j["id"] in done_ids for j in sc["jobs"])
 
     while sim.clock.us < bound and not wt.done():
@@ -122,7 +128,7 @@ async def _main(sim, sc, out):
     finished = all_done()
     if not finished:
         insp = world.inspect()
-        missing = [j["id"] for j in sc["jobs"] if j["id"] not in {e[2] for e in state.ends if e[4] in ("return", "hang")}]
+        missing = [j["id"] for j in sc["jobs"] if j["id"] not in ({e[2] for e in state.ends if e[4] in ("return", "hang")} | expired_dead())]
         never_enq = [i for i in missing if i not in enq]
         really = [i for i in missing if i in enq]
         if really:
@@ -148,7 +154,8 @@ async def _main(sim, sc, out):
     worst = 0
     for (us, step, jid, n, how) in state.ends:
         # backlog at that instant: enqueued earlier, immediately deliverable, not yet started
-        waiting = [k for (t, k) in enq_times if t < us - 2 * lat - 1000 and start_of.get(k, 1 << 62) > us and not jobs[k].get("retries")]
+        waiting = [k for (t, k) in enq_times if t < us - 2 * lat - 1000 and start_of.get(k, 1 << 62) > us and not jobs[k].get("retries")
+                   and not jobs[k].get("ttl_s")]
         if not waiting:
             continue
         nxt = next((t for t in starts if t >= us), None)
